@@ -8,7 +8,7 @@
      dist_content           carrying the key / EDIV / Rand of the bond stored for that pairing,
      dist_stale             and while that pairing is still the connection's completed pairing (no Pairing
                             Failed since). *)
-From BT Require Import Base.ListX SM.SMModel SM.SMSpec SM.SMProofs SM.ToyCrypto.
+From BT Require Import Base.ListX SM.SMModel SM.SMSpec SM.SMProofs SM.ToyCrypto SM.SMDirect.
 Local Open Scope N_scope.
 
 Definition C34_distribution_full : Prop := dist_full.
@@ -48,3 +48,43 @@ From BT Require gen.GenSM.
 Example C34_constants_are_the_codes :
   GenSM.op_encryption_information = 6 /\ GenSM.op_central_identification = 7 /\ GenSM.flag_bonding = 1.
 Proof. repeat split; reflexivity. Qed.
+
+(* ---- monitor-independent statements, directly over the model's step / run_state (SM/SMDirect.v) ---- *)
+
+(* in EVERY state (reachable or not): a step answers with Encryption Information (6) or Central Identification (7)
+   only on an output poll, with a bond data base, while the encrypted flag is set and the item is pending;
+   in the state after the step the item is no longer pending; the content is the armed key / EDIV, Rand *)
+Theorem C34_direct_distribution_step :
+  forall (K : crypto) (DB : Type) (D : dbops DB) c (s s' : state DB) o h r ev,
+  step K D c s o = (s', OResp (h :: r) ev) -> h = 6 \/ h = 7 ->
+  o = Out /\ c_bond c = true /\ encrypted s = true
+  /\ (h = 6 -> d_enc (dist s) = true /\ d_enc (dist s') = false /\ r = d_key (dist s))
+  /\ (h = 7 -> d_enc (dist s) = false /\ d_id (dist s) = true /\ d_id (dist s') = false /\ d_enc (dist s') = false
+              /\ r = le16 (d_ediv (dist s)) ++ le64 (d_rand (dist s))).
+Proof. exact dist_pdu_step. Qed.
+Print Assumptions C34_direct_distribution_step.
+
+(* over operation sequences of any length *)
+Theorem C34_direct_distribution_only_encrypted :
+  forall (K : crypto) (DB : Type) (D : dbops DB) c db0 ops o h r ev,
+  let s := run_state K D c (init_state db0) ops in
+  snd (step K D c s o) = OResp (h :: r) ev -> h = 6 \/ h = 7 ->
+  o = Out /\ c_bond c = true /\ encrypted s = true.
+Proof. exact dist_pdu_only_encrypted. Qed.
+Print Assumptions C34_direct_distribution_only_encrypted.
+
+Theorem C34_direct_distribution_not_pending_afterwards :
+  forall (K : crypto) (DB : Type) (D : dbops DB) c db0 ops o h r ev,
+  let s := run_state K D c (init_state db0) ops in
+  let s' := run_state K D c (init_state db0) (ops ++ [o]) in
+  snd (step K D c s o) = OResp (h :: r) ev ->
+  (h = 6 -> d_enc (dist s) = true /\ d_enc (dist s') = false) /\
+  (h = 7 -> d_id (dist s) = true /\ d_id (dist s') = false /\ d_enc (dist s') = false).
+Proof. exact dist_pdu_not_pending_afterwards. Qed.
+Print Assumptions C34_direct_distribution_not_pending_afterwards.
+
+(* non-vacuity: the two polls of w_legacy_passkey on the encrypted link (after 9 and 10 operations) *)
+Example C34_direct_witnesses :
+  (exists k, snd (step toy toydbops ex_cfg (ex_state 9) Out) = OResp (6 :: k) [])
+  /\ (exists ci, snd (step toy toydbops ex_cfg (ex_state 10) Out) = OResp (7 :: ci) []).
+Proof. exact dist_pdu_witness. Qed.
